@@ -252,6 +252,36 @@ def runHeartbeat (s : Sim K) (f : Flags) : Sim K :=
   let s := if f.escape then { s with status := stESCAPE } else s
   if f.encounter then { s with status := stENCOUNTER } else s
 
+/-! #### the exit conditions computed from the particle positions (rebound.c:743-774) -/
+
+/-- `p.x*p.x + p.y*p.y + p.z*p.z` (rebound.c:750) -/
+def norm2 (p : V3 K) : K := p.x * p.x + p.y * p.y + p.z * p.z
+
+/-- squared distance as rebound.c:765-768 computes it for `pi` (later index) and `pj` (earlier index) -/
+def dist2 (pi pj : V3 K) : K :=
+  let x := pi.x - pj.x
+  let y := pi.y - pj.y
+  let z := pi.z - pj.z
+  x * x + y * y + z * z
+
+/-- rebound.c:743-755: `exit_max_distance` non-zero and some real particle has `r2 > max2` -/
+def escapeFlag (maxd : K) (ps : List (V3 K)) : Bool :=
+  if fne maxd Scalar.zero then ps.any (fun p => fgt (norm2 p) (maxd * maxd)) else false
+
+/-- some pair `j < i` with `r2 < min2` (rebound.c:761-772; `ps` in index order) -/
+def anyClosePair (min2 : K) : List (V3 K) → Bool
+  | [] => false
+  | pj :: rest => rest.any (fun pi => ScalarO.lt (dist2 pi pj) min2) || anyClosePair min2 rest
+
+/-- rebound.c:756-774 -/
+def encounterFlag (mind : K) (ps : List (V3 K)) : Bool :=
+  if fne mind Scalar.zero then anyClosePair (mind * mind) ps else false
+
+/-- `reb_run_heartbeat` (rebound.c:741-775) on the positions of the real (non-variational) particles:
+    the flags of `runHeartbeat` computed instead of given -/
+def heartbeatFlags (userStop : Bool) (maxd mind : K) (ps : List (V3 K)) : Flags :=
+  { user := userStop, escape := escapeFlag maxd ps, encounter := encounterFlag mind ps }
+
 /-- rebound.c:857-861: `reb_simulation_step` (time bookkeeping by `step`, `steps_done++`,
     halting collision inside the step), `reb_run_heartbeat`, then the SIGINT test.
     `k` is the index of the step within this call, `f` the flags of the boundary it ends at. -/
